@@ -323,13 +323,19 @@ def _shapeops(ctx, p, rng):
                         ctx.violation('%s:value' % nm, {'shape': shape, 'k': k, 'why': why}); continue
                     ctx.ok(nm, (nm, shape, k, D, P, vk))
     # symvec / vecsym
+    def symvec_ref(S, uplo):
+        iu = np.triu_indices(S.shape[0])
+        return {'F': 0.5 * (S + S.T), 'U': S, 'L': S.T}[uplo][iu]
     for n in (1, 2, 3, 4):
+      for symbase in (False, True):
         data = _vals(rng, (D, P, n, n), 'real')
+        if symbase:
+            data[0] = 0.5 * (data[0] + np.swapaxes(data[0], -1, -2))      # exactly symmetric base point, non-symmetric higher coefficients
         x = UTPM(data.copy())
         for uplo in 'FLU':
             ok, y = _try(ctx, 'symvec', lambda: algopy.symvec(x, uplo))
             if ok:
-                good, why = _slicewise(y, data, lambda s: algopy.utils.symvec(s, uplo))
+                good, why = _slicewise(y, data, lambda s: symvec_ref(s, uplo))
                 if not good:
                     ctx.violation('symvec:value:%s' % uplo, {'n': n, 'why': why})
                 else:
